@@ -247,7 +247,7 @@ theorem rangeI_pairwise (n : Nat) : (rangeI n).Pairwise (fun x y => x ≠ y) := 
   rw [List.pairwise_map]
   exact (List.nodup_range (n := n)).imp (fun {a b} h hab => h (Int.ofNat.inj hab))
 
-theorem mem_rangeI {n : Nat} {x : Int} : x ∈ rangeI n ↔ ∃ k, k < n ∧ x = (k : Int) := by
+theorem mem_rangeI_cast {n : Nat} {x : Int} : x ∈ rangeI n ↔ ∃ k, k < n ∧ x = (k : Int) := by
   unfold rangeI
   simp only [List.mem_map, List.mem_range]
   constructor
@@ -263,19 +263,19 @@ theorem wrRange (d : Win) (n : Nat) (v : Nat → Val) (step : St → Int → Res
     (rangeI n) st
     (by
       intro x hx _
-      obtain ⟨k, hk, rfl⟩ := mem_rangeI.mp hx
+      obtain ⟨k, hk, rfl⟩ := mem_rangeI_cast.mp hx
       refine ⟨by omega, by omega, ?_⟩
       simpa using hd k hk)
     ((rangeI_pairwise n).imp (fun h _ _ => h))
     (by
       intro s x hx _ hag
-      obtain ⟨k, hk, rfl⟩ := mem_rangeI.mp hx
+      obtain ⟨k, hk, rfl⟩ := mem_rangeI_cast.mp hx
       simp only [Int.toNat_natCast] at hag ⊢
       exact hstep s k hk hag)
     (by intro s x _ h; cases h)
   refine ⟨st', hf, hm, hs, ?_, ?_⟩
   · intro i hi
-    have := hv (i : Int) (mem_rangeI.mpr ⟨i, hi, rfl⟩) rfl
+    have := hv (i : Int) (mem_rangeI_cast.mpr ⟨i, hi, rfl⟩) rfl
     simpa using this
   · intro b k hbk
     apply hfr
@@ -283,7 +283,7 @@ theorem wrRange (d : Win) (n : Nat) (v : Nat → Val) (step : St → Int → Res
     · exact Or.inl hb
     · refine Or.inr ?_
       intro x hx _
-      obtain ⟨j, hj, rfl⟩ := mem_rangeI.mp hx
+      obtain ⟨j, hj, rfl⟩ := mem_rangeI_cast.mp hx
       simp only [Int.toNat_natCast]
       omega
 
@@ -996,7 +996,7 @@ theorem rawCopy_total (s : St) (dst src : Win)
       .ok ((rangeI (min dst.len src.len)).map (fun i => cellD s src.buf (src.off + i.toNat))) := by
     apply mapM_ok_of
     intro x hx
-    obtain ⟨k, hk, rfl⟩ := mem_rangeI.mp hx
+    obtain ⟨k, hk, rfl⟩ := mem_rangeI_cast.mp hx
     exact St.get_of_cell (by omega) (by omega) (by simpa using cell_some_cellD (hs k hk))
   simp only [hm, bind, Except.bind]
   have hlen : ((rangeI (min dst.len src.len)).map (fun i => cellD s src.buf (src.off + i.toNat))).length =
